@@ -43,7 +43,7 @@ CLAIMED = {
     },
     "C09": {
         "technique": "Coq proof (termination of the candidate loop by a halving measure, absence of the overflow panics, error-is-no-op) + correspondence under fault plans with a hang guard",
-        "text": "C09_try_total / C09_loop_terminates / C09_err_is_noop. " + ARENA_TEXT + "Every fallible call is run under catch_unwind and fault plans (fail k-th, fail above a size, fail all); a call that does not return is detected by the hang guard / timeout. Partial: the infallible-iff-fallible clause is by construction of the model (one operation, two result mappings) and checked only by correspondence. C06_source_frames / C06_source_reset_accounting (reset's statements pinned as text; the value it assigns to allocated_bytes parsed from lib.rs and proved equal to the model's).",
+        "text": "C09_try_total / C09_loop_terminates / C09_err_is_noop. " + ARENA_TEXT + "Every fallible call is run under catch_unwind and fault plans (fail k-th, fail above a size, fail all); a call that does not return is detected by the hang guard / timeout. Partial: the infallible-iff-fallible clause is by construction of the model (one operation, two result mappings) and checked only by correspondence. C06_source_frames / C06_source_reset_accounting (reset's statements pinned as text; the value it assigns to allocated_bytes parsed from lib.rs and proved equal to the model's). C09_err_is_noop_every_operation / C09_err_keeps_memory / C09_err_then_fitting_request_succeeds (ArenaErr.v: for allocation, grow, grow_zeroed, shrink, realloc and the capacity constructor an Err leaves the state exactly as it was — chunks, fingers, limit, memory held — and a request that fits the current chunk is still served in place, whatever the global allocator would answer).",
         "design_ref": "DESIGN.md §6 C09",
     },
     "C10": {
@@ -64,13 +64,13 @@ CLAIMED = {
     "C13": {
         "engine": "vec",
         "technique": "Coq proof (refinement of a bitwise buffer model of Vec/RawVec to list semantics) + differential execution against std::vec::Vec and against the extracted model",
-        "text": "C13_push/pop/insert/remove/swap_remove/truncate/cap_ge_len/reserve_post/drain_filter_partition/extend_copy/extend_iter/extend_hint_irrelevant/split_off/drain/resize_grow/resize_shrink/splice/splice_hints_irrelevant/dedup_by/into_iter/clone are proved; C13_source_insert / C13_source_index_checks / C13_source_remove / C13_source_split_off / C13_source_frames / C13_source_drain_drop (Drain::drop's tail move and new length) / C13_source_push_pop_append / C13_source_drain_bounds / C13_source_drain_checks tie the index checks, memmove arguments, new lengths and range resolution of the source text to the model; for all arguments (out-of-range included) of the Vec model; every generated program (26 operation kinds, boundary indices, all range forms, scripted callbacks, neighbours and canaries in the same arena) is run on bumpalo's Vec, on std's Vec (the oracle the property names) and through the extracted model, debug and release. Every history also runs a zero-sized-element section against std, and the scripted iterators lie about their size_hint. Partial: conversions and zero-sized element types are decided by the differential only.",
+        "text": "C13_push/pop/insert/remove/swap_remove/truncate/cap_ge_len/reserve_post/drain_filter_partition/extend_copy/extend_iter/extend_hint_irrelevant/split_off/drain/resize_grow/resize_shrink/splice/splice_hints_irrelevant/dedup_by/into_iter/clone are proved; C13_source_insert / C13_source_index_checks / C13_source_remove / C13_source_split_off / C13_source_frames / C13_source_drain_drop (Drain::drop's tail move and new length) / C13_source_push_pop_append / C13_source_drain_bounds / C13_source_drain_checks tie the index checks, memmove arguments, new lengths and range resolution of the source text to the model; for all arguments (out-of-range included) of the Vec model; every generated program (26 operation kinds, boundary indices, all range forms, scripted callbacks, neighbours and canaries in the same arena) is run on bumpalo's Vec, on std's Vec (the oracle the property names) and through the extracted model, debug and release. Every history also runs a zero-sized-element section against std, and the scripted iterators lie about their size_hint. Partial: conversions and zero-sized element types are decided by the differential only. C13_into_slice (into_bump_slice(_mut) / into_boxed_slice hand out exactly the contents and drop nothing; stepped by the checker) / C13_source_drain_filter_drop; pinned: DrainFilter::next and its destructor, retain, drain_filter's constructor, dedup_by and its partition loop, the three into_* conversions.",
         "design_ref": "DESIGN.md §6 C13",
     },
     "C14": {
         "engine": "string",
         "technique": "Coq proof (well-formed UTF-8 closed under concatenation and splitting at char boundaries; lossy chunk iterator invariant; generated obligation on the width table) + differential execution against std::string::String and the extracted model",
-        "text": "C14_split_at_boundary / C14_concat / C14_truncate / C14_insert_str / C14_split_off / C14_remove / C14_replace_range / C14_from_utf8 / C14_lossy_chunk / C14_lossy_valid / C14_lossy_identity / C14_encode_wellformed / C14_decode_encode / C14_push / C14_insert / C14_insert_panics_off_boundary / C14_retain / C14_retain_all_is_identity / C14_pop / C14_from_utf16_valid / C14_from_utf16_roundtrip / C14_source_decoder (the loop body of the lossy decoder, parsed from lossy.rs on every run, decides like the model on every byte string) / C14_from_utf16_exact (the model of from_utf16_in accepts exactly well-formed UTF-16 and yields the UTF-8 of the same scalar values) / C14_lossy_is_maximal_subpart_repair (for every byte string the decoder's output equals an implementation-independent specification: each maximal subpart of an ill-formed sequence becomes one U+FFFD; the extracted specification is also compared with std's output on every swept input). Every generated program (18 operation kinds at every byte index, all range forms, 1-4 byte characters, panicking retain predicates) runs on bumpalo's String and std's String with a UTF-8 validity check after every operation; the decoders are compared with std on all byte strings up to length 2 (and through the model), a sweep of length 3, structured ill-formed input, and all single UTF-16 units plus structured pairs. The lead-byte width table is read back from the built crate on every run. UTF-16 texts (boundary units alone, in pairs and triples, random surrogate-heavy texts) go to the extracted model, the implementation and std. C14_encode_decode / C14_extend / C14_extend_by_text / C14_push_str. Source tie of the byte moves: C14_source_remove / C14_source_insert_bytes / C14_source_pop_truncate / C14_source_drain_bounds / C14_source_frames (the arguments String::remove, insert_bytes, pop and truncate pass to ptr::copy and set_len, and the boundary assertions in front of them, parsed from string.rs on every run) and C14_remove_assembled_from_source / C14_insert_assembled_from_source / C14_truncate_assembled_from_source / C14_remove_by_memmove / C14_insert_by_memmove (those moves done to a buffer give the model's result, for every text, index and spare capacity). Partial: the items a drain yields, format!/write_fmt and trait forwarding are decided by the differential only. C14_retain_loop_is_model (the buffer-level loop of String::retain computes s_retain for every script of non-panicking answers).",
+        "text": "C14_split_at_boundary / C14_concat / C14_truncate / C14_insert_str / C14_split_off / C14_remove / C14_replace_range / C14_from_utf8 / C14_lossy_chunk / C14_lossy_valid / C14_lossy_identity / C14_encode_wellformed / C14_decode_encode / C14_push / C14_insert / C14_insert_panics_off_boundary / C14_retain / C14_retain_all_is_identity / C14_pop / C14_from_utf16_valid / C14_from_utf16_roundtrip / C14_source_decoder (the loop body of the lossy decoder, parsed from lossy.rs on every run, decides like the model on every byte string) / C14_from_utf16_exact (the model of from_utf16_in accepts exactly well-formed UTF-16 and yields the UTF-8 of the same scalar values) / C14_lossy_is_maximal_subpart_repair (for every byte string the decoder's output equals an implementation-independent specification: each maximal subpart of an ill-formed sequence becomes one U+FFFD; the extracted specification is also compared with std's output on every swept input). Every generated program (18 operation kinds at every byte index, all range forms, 1-4 byte characters, panicking retain predicates) runs on bumpalo's String and std's String with a UTF-8 validity check after every operation; the decoders are compared with std on all byte strings up to length 2 (and through the model), a sweep of length 3, structured ill-formed input, and all single UTF-16 units plus structured pairs. The lead-byte width table is read back from the built crate on every run. UTF-16 texts (boundary units alone, in pairs and triples, random surrogate-heavy texts) go to the extracted model, the implementation and std. C14_encode_decode / C14_extend / C14_extend_by_text / C14_push_str. Source tie of the byte moves: C14_source_remove / C14_source_insert_bytes / C14_source_pop_truncate / C14_source_drain_bounds / C14_source_frames (the arguments String::remove, insert_bytes, pop and truncate pass to ptr::copy and set_len, and the boundary assertions in front of them, parsed from string.rs on every run) and C14_remove_assembled_from_source / C14_insert_assembled_from_source / C14_truncate_assembled_from_source / C14_remove_by_memmove / C14_insert_by_memmove (those moves done to a buffer give the model's result, for every text, index and spare capacity). Partial: the items a drain yields, format!/write_fmt and trait forwarding are decided by the differential only. C14_retain_loop_is_model (the buffer-level loop of String::retain computes s_retain for every script of non-panicking answers). C14_drain_yields (what a String Drain yields from either end, conservation over the range; stepped by the checker) / C14_pop_assembled_from_source.",
         "design_ref": "DESIGN.md §6 C14",
     },
     "C15": {
